@@ -18,6 +18,11 @@ CLAIMED["C12"] = dict(
     note="Exact reals; numpy replaced by symnp in iodata.orbitals/attrutils/basis; longer histories and more orbitals outside.",
     ref="4/C12")
 
+CLAIMED["C11"] = dict(
+    text="Bounded symbolic model checking of IOData: construction with argument subsets followed by every operation sequence up to depth 2 (thorough: all 128 subsets, depth 3) over assign/clear/read operations on atnums, atcorenums, charge, nelec, spinpol, mo and per-atom arrays of 2 and 3 atoms; for all real values z3 proves charge=sum(core)-nelec, read-back, default core charges, orbital-derived nelec/spinpol, per-atom agreement, TypeError-and-unchanged for inconsistent assignments, idempotent reads.",
+    note="Exact reals; numpy replaced by symnp in iodata.iodata/attrutils/orbitals; longer histories outside; one recorded finding (stale cached default core charges).",
+    ref="4/C11")
+
 NOT_YET = "check not built yet in this round (planned, see DESIGN.md section 4)"
 NA = {}
 
